@@ -98,11 +98,23 @@ pub fn generate(sink: &mut Sink, rng: &mut Rng, n: u64) {
     let qs = [
         OwnedValuePath { segments: vec![OwnedSegment::Field("a".into()), OwnedSegment::Field("b".into())] },
         OwnedValuePath { segments: vec![OwnedSegment::Index(0)] },
+        OwnedValuePath { segments: vec![OwnedSegment::Index(-1)] },
     ];
     for v in &vals {
         for p in &edge_paths {
             for q in &qs {
                 emit_case(sink, v, p, q, &Value::Integer(9), true);
+            }
+        }
+    }
+    // prepending inserts on top-level arrays, read back through negative indices (class D_shift refined)
+    for len in 1..=3i64 {
+        let v = Value::Array((0..len).map(Value::Integer).collect());
+        for k in (len + 1)..=(len + 3) {
+            for j in 1..=len {
+                let p = OwnedValuePath { segments: vec![OwnedSegment::Index(-(k as isize))] };
+                let q = OwnedValuePath { segments: vec![OwnedSegment::Index(-(j as isize))] };
+                emit_case(sink, &v, &p, &q, &Value::Integer(9), false);
             }
         }
     }
